@@ -324,9 +324,15 @@ class Html(base.Content):
     s = cls()
 
     # Write the open tag.
-    css_classes = cls.concate(css_classes)
+    def _attr(v):
+      # Attribute values are data: quotes and markup shall not break out.
+      if v is None:
+        return None
+      return html_lib.escape(str(v), quote=False).replace('"', '&quot;')
+
+    css_classes = _attr(cls.concate(css_classes))
     options = cls.concate(options)
-    styles = cls.style_str(styles)
+    styles = _attr(cls.style_str(styles))
     s.write(
         f'<{tag}',
         f' {options}' if options else None,
@@ -335,9 +341,7 @@ class Html(base.Content):
     )
     for k, v in properties.items():
       if v is not None:
-        # Attribute values are data: quotes and markup shall not break out.
-        v = html_lib.escape(str(v), quote=False).replace('"', '&quot;')
-        s.write(f' {k.replace("_", "-")}="{v}"')
+        s.write(f' {k.replace("_", "-")}="{_attr(v)}"')
     s.write('>')
 
     # Write the inner HTML.
